@@ -57,6 +57,8 @@ Apply(kind, s, op, f) ==
          IF pq THEN PqExtend(s, op.pairs, rb, f) ELSE DqExtend(s, op.pairs, rb, f)
     [] op.op = "convert" -> IF pq THEN DqFromStore(s, f) ELSE PqFromStore(s, f)      \* kind = the OLD kind
     [] op.op = "clear" -> Ok(Empty, f, <<>>)
+    \* Store::drain: heap and qp cleared, size 0, the map drained (in slot order) by the returned guard
+    [] op.op = "drain" -> Ok(Empty, f, SubSeq(Entries(s), 1, IF op.n < Len(s.keys) THEN op.n ELSE Len(s.keys)))
     [] op.op = "from_vec"  -> IF pq THEN PqFromVec(op.pairs, f) ELSE DqFromVec(op.pairs, f)
     [] op.op = "from_iter" -> IF pq THEN PqFromIter(op.pairs, f) ELSE DqFromIter(op.pairs, f)
     [] op.op = "de" -> IF pq THEN PqDeserialize(op.pairs, f) ELSE DqDeserialize(op.pairs, f)
@@ -64,7 +66,7 @@ Apply(kind, s, op, f) ==
     [] OTHER -> Ok(s, f, <<>>)
 Modelled == {"push", "push_increase", "push_decrease", "change_priority", "change_priority_by", "remove",
              "pop", "pop_min", "pop_max", "pop_if", "pop_min_if", "pop_max_if", "retain", "retain_mut",
-             "iter_mut", "extend", "convert", "clear", "from_vec", "from_iter", "de", "roundtrip"}
+             "iter_mut", "extend", "convert", "clear", "drain", "from_vec", "from_iter", "de", "roundtrip"}
 
 \* ------------------------------------------------------------------ model-side events
 \* The model carries neither payloads nor tags: both are 0 in model events.
@@ -110,6 +112,8 @@ EventOf(kind, s, op, r) ==
                     [k |-> s.keys[i], pay |-> 0, r |-> s.pri[i], t |-> 0, ai |-> i,
                      set |-> IF s.keys[i] \in DOMAIN op.set THEN <<[r |-> op.set[s.keys[i]], t |-> 0]>> ELSE <<>>,
                      newpay |-> <<>>]]]
+    [] op.op = "drain" ->
+         [op |-> op.op, n |-> op.n, ys |-> [i \in 1..Len(r.ret) |-> [k |-> r.ret[i][1], pay |-> 0, r |-> r.ret[i][2], t |-> 0]]]
     [] op.op = "extend" ->
          [op |-> op.op, pairs |-> [i \in 1..Len(op.pairs) |-> [k |-> op.pairs[i][1], pay |-> 0, r |-> op.pairs[i][2], t |-> 0]]]
     [] OTHER -> base
